@@ -3,6 +3,7 @@ import PsycheModel.Lemmas.GuessRole
 import PsycheModel.Lemmas.Stmt
 import PsycheModel.Lemmas.Init
 import PsycheModel.Lemmas.TagBody
+import PsycheModel.Lemmas.Declaration
 import PsycheModel.Lemmas.Expr
 import PsycheModel.ExprReal
 /-!
@@ -375,6 +376,104 @@ example :
   exact ⟨rfl, rfl, by decide, by decide⟩
 
 end PsycheModel.TagBody
+
+/-! ## Declarations above the declarators (6.7, 6.9.1): the model of `parseDeclarationOrFunctionDefinition` (`PsycheModel/Declaration.lean`) -/
+namespace PsycheModel.Declaration
+open PsycheModel.Declarators
+
+/-- **Whatever the model accepts prints back, and every accepted shape is accepted** (no fuel: the loops are structural). -/
+theorem declaration_parse_pp (r : R) (rest : List Tok) (h : acc r = true) : declaration (pp r ++ rest) = some (r, rest) :=
+  Declaration.declaration_pp r rest h
+
+theorem declaration_parse_sound (ts : List Tok) (r : R) (rest : List Tok) (h : declaration ts = some (r, rest)) :
+    ts = pp r ++ rest ∧ acc r = true := Declaration.declaration_sound ts r rest h
+
+/-- C's type constraints on a declarator as far as they matter here (6.7.6.3p1, 6.7.6.2p1): what a function derivation is applied to is the
+name itself or a pointer (no function returning a function or an array, no array of functions); no bit-field, no abstract declarator -/
+def wfType : Decl → Bool
+  | .ident _ => true
+  | .abstract => false
+  | .bitfield _ => false
+  | .paren d => wfType d
+  | .ptr _ d => wfType d
+  | .arr d => wfType d
+  | .fn d _ _ => wfType d && (match unparen d with | .ident _ => true | .ptr _ _ => true | _ => false)
+
+theorem fnNextToName_unparen (b : Bool) : ∀ d : Decl, fnNextToName b d = fnNextToName b (unparen d)
+  | .paren d => by simp only [fnNextToName, unparen]; exact fnNextToName_unparen b d
+  | .ident _ | .abstract | .ptr _ _ | .arr _ | .fn _ _ _ | .bitfield _ => by simp [unparen]
+
+theorem wfType_unparen : ∀ d : Decl, wfType d = true → wfType (unparen d) = true
+  | .paren d, h => by simp only [unparen]; exact wfType_unparen d (by simpa [wfType] using h)
+  | .ident _, h | .abstract, h | .ptr _ _, h | .arr _, h | .fn _ _ _, h | .bitfield _, h => by simpa [unparen] using h
+
+theorem unparen_not_paren : ∀ (e x : Decl), unparen e ≠ .paren x
+  | .paren e, x => by simp only [unparen]; exact unparen_not_paren e x
+  | .ident _, _ | .abstract, _ | .ptr _ _, _ | .arr _, _ | .fn _ _ _, _ | .bitfield _, _ => by simp [unparen]
+
+/-- **The `=` switch never refuses a valid initializer**: a declarator that satisfies C's type constraints and declares an OBJECT (the
+derivation next to the name is not a function, 6.7.9p3) is one the parser lets be initialized - whatever its depth and parentheses. -/
+theorem object_declarator_may_be_initialized (d : Decl) (hwf : wfType d = true) (hobj : isFunDef d = false) : initOK d = true := by
+  unfold initOK
+  have hw := wfType_unparen d hwf
+  have ho : fnNextToName false (unparen d) = false := by rw [← fnNextToName_unparen]; exact hobj
+  cases hu : unparen d with
+  | ident n => rfl
+  | ptr q x => rfl
+  | arr x => rfl
+  | abstract => rw [hu] at hw; simp [wfType] at hw
+  | bitfield x => rw [hu] at hw; simp [wfType] at hw
+  | paren x => exact absurd hu (unparen_not_paren d x)
+  | fn inner ps e =>
+    rw [hu] at hw ho
+    simp only [wfType, Bool.and_eq_true] at hw
+    cases hi : unparen inner with
+    | ptr q x => simp [hi]
+    | ident n =>
+      exfalso
+      simp only [fnNextToName] at ho
+      rw [fnNextToName_unparen, hi] at ho
+      simp [fnNextToName] at ho
+    | abstract | bitfield _ | paren _ | arr _ | fn _ _ _ => rw [hi] at hw; simp at hw
+
+/-- … so every declaration C11 derives from these pieces is accepted with its own tree: specifiers, then init-declarators whose
+initialized declarators declare objects, then `;` - or one function declarator and a body. -/
+theorem valid_declaration_accepted (ss : List Spec) (ids : List ID) (rest : List Tok) (hss : ss ≠ []) (hne : ids ≠ [])
+    (hids : ∀ x ∈ ids, x.init.isSome = true → wfType x.d = true ∧ isFunDef x.d = false) :
+    declaration (pp (if hasTypedef ss then .typedefDecl ss ids else .varDecl ss ids) ++ rest) =
+      some (if hasTypedef ss then .typedefDecl ss ids else .varDecl ss ids, rest) := by
+  apply declaration_parse_pp
+  have hok : ids.all okID = true := by
+    simp only [List.all_eq_true]
+    intro x hx
+    cases hi : x.init with
+    | none => simp [okID, hi]
+    | some i =>
+      obtain ⟨h1, h2⟩ := hids x hx (by simp [hi])
+      simp [okID, object_declarator_may_be_initialized x.d h1 h2]
+  by_cases htd : hasTypedef ss = true
+  · simp [htd, acc, hok, hss, hne]
+  · simp [htd, acc, hok, hss, hne]
+
+/-- 6.7.9p3 the other way round, as far as the parser goes: a plain function declarator with an initializer is refused -/
+theorem function_declarator_takes_no_initializer (n : String) (ps : Params) (e : Bool) (qs : List Qual) :
+    initOK (.fn (.ident n) ps e) = false ∧ initOK (.paren (.fn (.paren (.ident n)) ps e)) = false ∧
+    initOK (.fn (.paren (.ptr qs (.ident n))) ps e) = true := by
+  simp [initOK, unparen]
+
+/-- non-vacuity: `typedef int T, *PT;`, `int x = 1, (*fp)(void) = 0, a[2];`, `int *f(void) { }`; and the refused `int f(void) = 0;`,
+`int x, f(void) { }`, `int *f(void) = 0 { }` (the last one was accepted by the parser until it was repaired) -/
+example :
+    (declaration [.tdef, .sp 0, .dcl (.ident "T"), .comma, .dcl (.ptr [] (.ident "PT")), .semi]).isSome = true ∧
+    (declaration [.sp 0, .dcl (.ident "x"), .eq, .ini 1, .comma, .dcl (.fn (.paren (.ptr [] (.ident "fp"))) .nil false), .eq, .ini 0, .comma,
+        .dcl (.arr (.ident "a")), .semi]).isSome = true ∧
+    (declaration [.sp 0, .dcl (.ptr [] (.fn (.ident "f") .nil false)), .body 0]).isSome = true ∧
+    (declaration [.sp 0, .dcl (.fn (.ident "f") .nil false), .eq, .ini 0, .semi]).isNone = true ∧
+    (declaration [.sp 0, .dcl (.ident "x"), .comma, .dcl (.fn (.ident "f") .nil false), .body 0]).isNone = true ∧
+    (declaration [.sp 0, .dcl (.ptr [] (.fn (.ident "f") .nil false)), .eq, .ini 0, .body 0]).isNone = true := by
+  simp [declaration, specs, idl, initOK, isFunDef, fnNextToName, unparen, hasTypedef]
+
+end PsycheModel.Declaration
 
 namespace PsycheModel.Expr
 /-- with the parser's own tables, every expression tree the C11 grammar derives is accepted by the model of `parseExpression` -/
